@@ -91,18 +91,20 @@ Eff(S, e) ==
     [] e.k = "prune" -> PruneEff(Z(S), e.sym)
     [] e.k = "price" -> PriceEff(Z(S), e.sym, e.p)
 R(v, k) == [v |-> v, k |-> k]
-Both(S, e, P) ==
+Both(S, e, P, pk) ==
   LET tag == Tag(S, e)
       d == Diff(Eff(S, e), P, IsDup(S, e))
-      pc == IF pok THEN PostChecks(e.post, P) ELSE "ok"
+      pc == IF pk THEN PostChecks(e.post, P) ELSE "ok"
   IN IF d # "ok" THEN R(tag \o ":" \o d, "")
      ELSE IF pc # "ok" THEN R(tag \o ":" \o pc, "") ELSE R("ok", "")
 
 Knife(S, e) == e.k = "submit" /\ ~e.ro /\ RefMargin(S) = Norm(e.q * e.p, Lev) /\ ~AllDyadic(S)
-Judge(S, e) ==
+Judge(S, e, pk) ==
   LET P == FromLog(e.post) IN
-  IF e.exc # "none" THEN R(e.k \o ":raises:" \o e.exc, "")
+  IF ~WellFormed(S) THEN R(e.k \o ":ill-formed-pre-state", "")
+  ELSE IF e.exc # "none" THEN R(e.k \o ":raises:" \o e.exc, "")
   ELSE IF ~WellFormed(P) THEN R(e.k \o ":unknown-order-in-registries", "")
+  ELSE IF "off" \in DOMAIN e.post /\ Len(e.post.off) > 0 THEN R(e.k \o ":value-off-the-lattice:" \o e.post.off[1], "")
   ELSE IF e.k \in {"cancel", "exec"} /\ e.id \notin 1..Len(S.ord) THEN R(e.k \o ":unknown-order", "")
   ELSE IF e.k = "submit" /\ Proj = "acct" THEN
          LET o == OrderOf(e)
@@ -111,11 +113,17 @@ Judge(S, e) ==
          IN IF ~knife /\ mustReject /\ e.acc THEN R("submit:accepted-over-margin", "")
             ELSE IF ~knife /\ ~mustReject /\ ~e.acc THEN R("submit:rejected-within-margin", "")
             ELSE IF ~e.acc THEN R("ok", "")                          \* a rejected submission ends the sequence
-            ELSE Both(S, e, P)
+            ELSE Both(S, e, P, pk)
   ELSE IF e.k = "submit" /\ ~e.acc THEN R("ok", "")
-  ELSE IF e.k \in {"submit", "cancel", "exec", "flush", "cancelall", "prune", "price"} THEN Both(S, e, P)
+  ELSE IF e.k \in {"submit", "cancel", "exec", "flush", "cancelall", "prune", "price"} THEN Both(S, e, P, pk)
   ELSE R("log:unknown-event", "")
 
+\* in-vivo traces (hdr.haspre): other things happen between two order calls, so every event carries the state
+\* observed before the call; object-level traces use the previous logged post-state
+HasPre == "haspre" \in DOMAIN Traces[tid].hdr /\ Traces[tid].hdr.haspre
+\* (e.sp: the logged pre-state is identical to the previous logged post-state and is not repeated in the file)
+PreOf(e) == IF HasPre /\ ~e.sp THEN FromLog(e.pre) ELSE st
+PokOf(e) == IF HasPre /\ ~e.sp THEN WellFormed(FromLog(e.pre)) /\ PostChecks(e.pre, FromLog(e.pre)) = "ok" ELSE pok
 InitOK == WellFormed(FromLog(Traces[tid].init))
 TInit == /\ tid \in 1..Len(Traces) /\ l = 1 /\ hist = <<>> /\ known = {}
          /\ st = FromLog(Traces[tid].init)
@@ -124,12 +132,12 @@ TInit == /\ tid \in 1..Len(Traces) /\ l = 1 /\ hist = <<>> /\ known = {}
                        ELSE IF Traces[tid].hdr.judgeinit /\ PostChecks(Traces[tid].init, FromLog(Traces[tid].init)) # "ok"
                             THEN "init:" \o PostChecks(Traces[tid].init, FromLog(Traces[tid].init)) ELSE "ok")
 TStep == /\ verdict = "ok" /\ l <= Len(Ev(tid))
-         /\ LET e == Ev(tid)[l]  j == Judge(st, e) IN
+         /\ LET e == Ev(tid)[l]  j == Judge(PreOf(e), e, PokOf(e)) IN
               /\ verdict' = j.v
               /\ known' = IF j.k = "" THEN known ELSE known \cup {j.k}
               /\ st' = FromLog(e.post)
               /\ pok' = ((e.k # "submit" \/ e.acc) /\ WellFormed(FromLog(e.post)) /\ PostChecks(e.post, FromLog(e.post)) = "ok")
-              /\ (Proj = "acct" /\ Knife(st, e) => PrintT(<<"KNIFE", Traces[tid].id, l>>))
+              /\ (Proj = "acct" /\ Knife(PreOf(e), e) => PrintT(<<"KNIFE", Traces[tid].id, l>>))
          /\ l' = l + 1 /\ UNCHANGED <<tid, hist>>
 TSpec == TInit /\ [][TStep]_tvars
 Finished == verdict # "ok" \/ l > Len(Ev(tid))
